@@ -687,6 +687,15 @@ func init() {
 			s := (*(r.V.(*Value))).(Struct)
 			data = bytesOf(st, s[0].(Slice))
 		default:
+			// harness readers expose their content in a first field of type string
+			if pv, ok := r.V.(*Value); ok {
+				if s, ok := (*pv).(Struct); ok && len(s) > 0 {
+					if _, isStr := s[0].(string); isStr {
+						data = []byte(st.concStrV(s[0]))
+						break
+					}
+				}
+			}
 			panic(unsupported("json.NewDecoder on " + r.T.String()))
 		}
 		p := new(Value)
